@@ -1,7 +1,7 @@
 """C11 — $output selects exactly the marked subtrees and hides exactly the excluded ones."""
 import gen
 from histcheck import chain_case
-from props.evalcommon import standard_run, standard_replay
+from props.evalcommon import standard_run, standard_replay, small_scope
 from wire import from_wire
 
 PID = "C11"
@@ -166,7 +166,7 @@ def run(rep):
     standard_run(rep, PID, gen_case, nontrivial, "output selection differs", 4000, 200000,
                  "random trees (1-3 document streams) with $output true/false/non-boolean markers on any subset of maps (key) and "
                  "lists (marker entry, some with extra keys), nested to any depth; judged by the model and by an independently "
-                 "written Python selection/hiding function; non-trivial = carries a marker", oracle=oracle)
+                 "written Python selection/hiding function; non-trivial = carries a marker", oracle=oracle, extra_gens=[small_scope(PID)])
 
 
 def replay(rep, payload):
